@@ -88,6 +88,14 @@ theorem compress_bug_is_compress_plus_zero (t : Table) (xs : List UInt8) :
       compress t false xs ++ (if (compress t false xs).length * 8 = compressedBitLen t xs then [0] else []) :=
   compress_bug_eq t xs
 
+/-- `compress_into_vec` (the public `compress`) reserves `3 * len + 3` bytes and unwraps the result:
+the reservation always suffices, so it never panics. -/
+theorem compress_vec_never_panics (t : Table) (h : WellFormed t) (xs : List UInt8) :
+    compressInto t false xs (3 * xs.length + 3) = some (compress t false xs) := by
+  have := compressedLen_le_vec t h xs
+  simp only [compressInto, compress_length_false]
+  rw [if_pos this]
+
 /-- compression into a buffer succeeds exactly when the predicted length fits -/
 theorem compressInto_iff (t : Table) (xs : List UInt8) (cap : Nat) :
     (compressInto t false xs cap = some (compress t false xs) ↔ compressedLen t xs ≤ cap)
